@@ -126,6 +126,13 @@ def oracle_atmosphere(R, tier, seed):
             o2 = at(h + 1e-3, M)
             for k in o:
                 if abs(o2[k] - o[k]) > 1e-6 * abs(o[k]): bad["discontinuous-" + k] = [o[k], o2[k]]
+        # the same altitude again with another Mach number on the same problem (a Mach sweep at fixed altitude): everything that
+        # depends on the Mach number must follow it
+        if not bad:
+            o0 = at(h, M); o3 = at(h, 0.5 * M)
+            if abs(o3["v"] - 0.5 * M * o3["speed_of_sound"]) > 1e-12 * abs(o0["v"]): bad["v=Ma-after-Mach-change-at-fixed-altitude"] = [o3["v"], 0.5 * M * o3["speed_of_sound"]]
+            elif abs(o3["re"] - o3["rho"] * o3["v"] / o3["mu"]) > 1e-12 * o3["re"]: bad["reynolds-after-Mach-change-at-fixed-altitude"] = 1
+            elif any(abs(o3[k] - o0[k]) > 0 for k in ("T", "P", "rho", "speed_of_sound", "mu")): bad["state-depends-on-Mach"] = 1
         O["cases"] += 1
         if bad: _fail(O, "C17:AtmosGroup:" + sorted(bad)[0], {"altitude_ft": h, "Mach": M, "knot": is_knot}, errors=bad, outputs=o)
         else: O["ok"] += 1
